@@ -182,6 +182,8 @@ class Model:
             nd = strip_diagnostics(self.modules)
             from .normalise import inline_tail_delegations
             self.inlined += specialise_fresh_factories(self.modules) + inline_tail_delegations(self.modules) + nest_lifted_closures(self.modules) + inline_fresh_helpers(self.modules)
+            from .normalise import thread_boolean_results
+            self.inlined += thread_boolean_results(self.modules)
             from .normalise import propagate_attribute_aliases, unroll_literal_loops, strip_fresh_write_only_state
             self.inlined += strip_fresh_write_only_state(self.modules)
             self.inlined += unroll_literal_loops(self.modules)
